@@ -157,7 +157,13 @@ func textForms() []string {
 // c13Dump: digest of compiling the fixed policy list + all text forms, for
 // comparison between processes.
 func c13Dump() {
-	_, ts := mustTargets(vlib.NewRun("C13", "exploration"))
+	drun := vlib.NewRun("C13", "exploration")
+	_, ts := mustTargets(drun)
+	for g, d := range c13ColdStart(drun, ts) { // concurrent first compilations of this fresh process
+		if g == 0 || d != "" {
+			fmt.Printf("cold %s\n", d)
+		}
+	}
 	seed := int64(1)
 	fmt.Sscan(os.Getenv("VERIF_SEED"), &seed)
 	for i, s := range c13Policies(seed, 120, ts) {
@@ -421,9 +427,45 @@ func c13Workload(run *vlib.Run, ts []*vlib.Target, nPolicies, rounds int) {
 	}
 }
 
+// c13ColdStart: the very first compilations of a process happen concurrently (nothing has been compiled or converted
+// before, so anything the package initialises lazily is initialised under contention). All goroutines compile equal
+// policies and must get identical programs.
+func c13ColdStart(run *vlib.Run, ts []*vlib.Target) []string {
+	t := targetByName(ts, "x86_64")
+	spec := vlib.PolicySpec{Arch: "x86_64", Default: vlib.RetAllow, Groups: []vlib.GroupSpec{{Action: vlib.RetErrno, Names: []string{"getppid"},
+		With: []vlib.EntrySpec{{Name: "read", Conds: []vlib.CondSpec{{Arg: 0, Op: "Equal", Val: 1<<40 | 7}, {Arg: 5, Op: "GreaterThan", Val: 1 << 33}}},
+			{Name: "write", Conds: []vlib.CondSpec{{Arg: 2, Op: "BitsSet", Val: 0xff00000000}}}}}}}
+	const n = 32
+	var start, done sync.WaitGroup
+	start.Add(1)
+	digests := make([]string, n)
+	for g := 0; g < n; g++ {
+		done.Add(1)
+		go func(g int) {
+			defer done.Done()
+			p := spec.Policy()
+			start.Wait()
+			c := vlib.Compile(p, t)
+			digests[g] = progDigest(c.Ins, c.Err)
+		}(g)
+	}
+	start.Done()
+	done.Wait()
+	for g := 1; g < n; g++ {
+		if digests[g] != digests[0] {
+			run.Violation("cold-start-compilations-differ", fmt.Sprintf("the first %d compilations of the process, run concurrently on equal policies, gave different programs (%s vs %s)", n, digests[0], digests[g]), map[string]any{"check": "C13", "policy": spec})
+			break
+		}
+	}
+	run.Count("cold_start_concurrent_compilations", n)
+	return digests
+}
+
 func c13Race() {
 	run := vlib.NewRun("C13", "exploration")
 	_, ts := mustTargets(run)
+	cold := c13ColdStart(run, ts)
+	fmt.Println("cold-start digest", cold[0])
 	c13Workload(run, ts, run.N(60, 240), run.N(1, 3))
 	fmt.Printf("race-workload compilations=%d sharing=%d violations=%d\n", run.Counter("compilations"), run.Counter("compilations_of_sharing_copies"), run.Violations())
 	if run.Violations() > 0 {
